@@ -8,6 +8,7 @@ import (
 	"fmt"
 	"io"
 	"os"
+	"path/filepath"
 	"runtime"
 	"sort"
 	"strconv"
@@ -560,6 +561,45 @@ func c03Exec(tr *verifh.T, c verifh.Case, hold bool) (recs [][2][]string, live [
 			}
 			e.t = t
 			r.op(a, "ok")
+		case a[0] == "tornreopen" && len(a) == 2:
+			// a crash left the `_status` sidecar with n bytes (a prefix of its content, or zero padded), then the
+			// process restarts: a new Torrent instance over the same store. Only while the file is in the download
+			// state and no call is in flight.
+			n, ok := atoi(a[1])
+			if !ok || n < 0 || n > 64 || len(e.live()) > 0 || e.t.Complete() {
+				return
+			}
+			var path string
+			filepath.Walk(e.dir+"/download", func(p string, info os.FileInfo, err error) error {
+				if err == nil && !info.IsDir() && info.Name() == "_status" {
+					path = p
+				}
+				return nil
+			})
+			if path == "" {
+				return
+			}
+			old, err := os.ReadFile(path)
+			if err != nil {
+				return
+			}
+			torn := make([]byte, n)
+			copy(torn, old)
+			if err := os.WriteFile(path, torn, 0644); err != nil {
+				return
+			}
+			var t storage.Torrent
+			if e.gated {
+				t, err = agentstorage.NewTorrent(e.gcads, e.mi)
+			} else {
+				t, err = e.archive.GetTorrent("ns", e.mi.Digest())
+			}
+			if err != nil {
+				r.op(a, "err", verifh.Str(err.Error()))
+				return
+			}
+			e.t = t
+			r.op(a, "ok")
 		case a[0] == "reopen" && len(a) == 1:
 			if len(e.live()) > 0 {
 				return
@@ -715,6 +755,10 @@ func c03SeqAlphabet(blob []byte, pl int) [][]string {
 	ops = append(ops, []string{"op", "reopen"})
 	if n <= 2 {
 		ops = append(ops, []string{"op", "recreate"})
+	}
+	if n == 2 {
+		// a torn status sidecar: shorter (non-empty when possible), longer
+		ops = append(ops, []string{"op", "tornreopen", strconv.Itoa(n - 1)}, []string{"op", "tornreopen", strconv.Itoa(n + 1)})
 	}
 	return ops
 }
@@ -992,7 +1036,10 @@ func TestVerif_C03(t *testing.T) {
 				ops = append(ops, []string{"op", "closefail"})
 				tr.Count("random_closefail", 1)
 			case x < 19:
-				if r.Chance(1, 4) {
+				if r.Chance(1, 3) {
+					ops = append(ops, []string{"op", "tornreopen", strconv.Itoa(r.Intn(np + 3))})
+					tr.Count("random_tornreopen", 1)
+				} else if r.Chance(1, 4) {
 					ops = append(ops, []string{"op", "recreate"})
 				} else {
 					ops = append(ops, []string{"op", "reopen"})
